@@ -168,10 +168,15 @@ def run(ctx, pid):
 
     # ---- statistical step (C05 only) and helper contracts
     if pid == "C05":
-        nstat = 260 if th else 45
-        sample = [c for c in cases if c["leaves"] and not c["input"]["opts"]["quota"]][:nstat]
+        nstat = 160 if th else 16
+        elig = [c for c in cases if c["leaves"] and not c["input"]["opts"]["quota"]]
+        whales = [c for c in elig if any(l["pos"] > 0 for l in c["leaves"])]
+        plain = [c for c in elig if not any(l["pos"] > 0 for l in c["leaves"])]
+        sample = whales[: nstat // 2] + plain[: nstat - min(len(whales), nstat // 2)]
+        if not whales:
+            raise Infra("no exported input with whales for the statistical step")
         res, out, rc = ctx.go_test("internal/data_model", "TestVerifC05C06Stat", inp=sample,
-                                   env={"VERIF_NRANDOM": 60 if th else 10, "VERIF_NRUNS": 20000}, timeout=1500)
+                                   env={"VERIF_NRANDOM": 40 if th else 4, "VERIF_NRUNS": 20000}, timeout=1500)
         res = ctx.need_result(res, out, rc, "TestVerifC05C06Stat")
         bad = report(ctx, pid, res.get("mismatches"), "stat")
         ctx.ev.add_impl("inputs x 20000 seeded runs of the production path (keep frequency vs 1/SF)", 0 if bad else res["replayed"],
